@@ -10,7 +10,9 @@ EXPLANATION = (
     "Layout::new of the same type; (R4) node typestate: a freshly allocated node is handed to the list exactly once and both "
     "neighbour links are stored on the same path; a node re-boxed with from_raw_in is dropped/consumed only after its predecessor's next and its successor's "
     "prev were redirected, the sentinel is forgotten, and a node is only destroyed after the end-of-list test on that very node was negative (sentinels are never freed); (R5) CQueue::drop empties the bucket vector before the allocator field is "
-    "dropped and DualLinkedList::drop pops until None. Decides these necessary conditions only; not non-overlap / reuse-after-release over histories.")
+    "dropped and DualLinkedList::drop pops until None. "
+    "(R3 also: a freed block is recorded with exactly the extent that was handed out for it.) "
+    "Decides these necessary conditions only; not non-overlap / reuse-after-release over histories.")
 ASSUMPTIONS = ["the global allocator returns page_size-aligned pages", "raw-pointer aliasing is as the SAFETY comments state"]
 
 A = 'des_cqueue::stable::alloc::'
